@@ -99,12 +99,12 @@ Definition factors_valid (a b : Z) : bool :=
   && negb (((a =? -1) && negb (b =? -1)) || (negb (a =? -1) && (b =? -1))).
 
 (* setupReplicationFactor: defaults for 0, allocations dropped when pinning everywhere *)
+Definition with_defaults (c : cfg) (o : opts) : opts :=
+  set_factors (if o_rmin o =? 0 then def_min c else o_rmin o) (if o_rmax o =? 0 then def_max c else o_rmax o) o.
+Definition everywhere (o : opts) : bool := (o_rmin o =? -1) && (o_rmax o =? -1).
 Definition setup_rf (c : cfg) (p : pin) : pin :=
-  let o := p_opts p in
-  let mn := if o_rmin o =? 0 then def_min c else o_rmin o in
-  let mx := if o_rmax o =? 0 then def_max c else o_rmax o in
-  let p' := set_opts (set_factors mn mx o) p in
-  if (mn =? -1) && (mx =? -1) then set_allocs [] p' else p'.
+  let p' := set_opts (with_defaults c (p_opts p)) p in
+  if everywhere (p_opts p') then set_allocs [] p' else p'.
 
 (* t.Before(now) / t.After(now) with now = (now s, 0 ns) *)
 Definition t_before (t : Z * N) (now : Z) : bool := fst t <? now.
@@ -134,6 +134,16 @@ Definition setup_existing (p : pin) (existing : option pin) : option err :=
 Definition log_pin (st : pinset) (p : pin) : pinset := aput (p_cid p) (pb_norm p) st.
 Definition log_unpin (st : pinset) (c : N) : pinset := adel c st.
 
+(* what PinUpdate makes of the source pin's options: source recorded, name / expiry overridden when given (and in the future) *)
+Definition update_opts (now : Z) (exo : opts) (f : N) (o : opts) : opts :=
+  let o2 := set_update (Some f) exo in
+  let o3 := if (o_name o =? 0)%N then o2 else set_name (o_name o) o2 in
+  match o_expire o with
+  | Some t => if t_after t now then set_expire (Some t) o3 else o3
+  | None => o3 end.
+Definition updated_pin (now : Z) (ex : pin) (f t : N) (o : opts) : pin :=
+  mk_pin (update_opts now (p_opts ex) f o) t (p_ty ex) (p_allocs ex) (p_depth ex) (p_ref ex).
+
 (* Cluster.PinUpdate (with the follower guard of fix-S5) *)
 Definition pin_update_op (c : cfg) (e : env) (st : pinset) (f t : N) (o : opts) : result * pinset :=
   if follower c then (RErr EFollower, st) else
@@ -141,14 +151,7 @@ Definition pin_update_op (c : cfg) (e : env) (st : pinset) (f t : N) (o : opts) 
   | None => (RErr ENotFound, st)
   | Some ex =>
       if negb (ptype_eqb (p_ty ex) DataT) then (RErr EUpdateType, st)
-      else
-        let o2 := set_update (Some f) (p_opts ex) in
-        let o3 := if (o_name o =? 0)%N then o2 else set_name (o_name o) o2 in
-        let o4 := match o_expire o with
-                  | Some t => if t_after t (e_now e) then set_expire (Some t) o3 else o3
-                  | None => o3 end in
-        let p' := mk_pin o4 t (p_ty ex) (p_allocs ex) (p_depth ex) (p_ref ex) in
-        (ROk p', log_pin st p')
+      else let p' := updated_pin (e_now e) ex f t o in (ROk p', log_pin st p')
   end.
 
 Definition alloc_input (c : cfg) (e : env) (p : pin) (existing : option pin) (bl : list N) : input :=
